@@ -2,7 +2,7 @@
 from .common import pipeline_for, combined
 
 LEVEL = 'other'
-RULES = ('S-OWN', 'M1', 'R03.a', 'R03.b', 'R03.d', 'R03.e', 'R04.d', 'R01.b', 'R02.d', 'R03.c', 'R14.t', 'R01.c', 'R10.s', 'R10.d', 'R01.k', 'R04.n', 'R02.r')
+RULES = ('S-OWN', 'M1', 'R03.a', 'R03.b', 'R03.d', 'R03.e', 'R04.d', 'R01.b', 'R02.d', 'R03.c', 'R14.t', 'R01.c', 'R10.s', 'R10.d', 'R01.k', 'R04.n', 'R02.r', 'R03.f')
 
 
 def run(prog, rec, tier):
